@@ -37,6 +37,7 @@ ReadDiagA(c, tr, got, scaled, alt) ==
   ELSE IF \E s \in 1..Len(c.tr) : got.vars[s].found = FALSE THEN "a tracer variable (category_name) is missing"
   ELSE IF \E s \in 1..Len(c.tr) : got.vars[s].shape # <<c.nt, c.tr[s].nl, c.nj, c.ni>> THEN "shape of a tracer variable (per-tracer layer count)"
   ELSE IF \E s \in 1..Len(c.tr) : got.vars[s].tracerid # c.tr[s].id THEN "tracer identifier"
+  ELSE IF \E s \in 1..Len(c.tr) : got.vars[s].start # <<c.i0 - 1, c.j0 - 1, c.l0 - 1>> THEN "window origin (STARTI, STARTJ, STARTK) of a tracer variable"
   ELSE IF \E s \in 1..Len(c.tr) : ~got.vars[s].ok THEN "values are not the encoded (scaled) values"
   ELSE IF \E s \in 1..Len(c.tr) : ~DataOK(c, s, got.vars[s].x2, scaled, alt)
        THEN "tracer data of variable " \o ToString(CHOOSE s \in 1..Len(c.tr) : ~DataOK(c, s, got.vars[s].x2, scaled, alt))
